@@ -297,13 +297,21 @@ func Entails(g []absint.Lit, a, b *sym.Term, strict bool) (bool, string) {
 }
 
 // checkBounds discharges every EvBound event of a run; it returns the number of obligations and the first failure.
-func checkBounds(r *Run) (n int, failPos, failMsg string) {
+func checkBounds(r *Run) (n int, failPos, failMsg string) { return checkBoundsWith(r, nil) }
+
+// checkBoundsWith: as checkBounds, with the path condition of every event extended by the linear consequences of opaque
+// atoms (e.g. a predicate replaced by its specification) that axioms derives from it.
+func checkBoundsWith(r *Run, axioms func(g []absint.Lit) []absint.Lit) (n int, failPos, failMsg string) {
 	for _, e := range r.Ex.Events {
 		if e.Kind != absint.EvBound {
 			continue
 		}
 		n++
-		ok, why := Entails(e.Guard, e.Term, e.Bound, e.Strict)
+		g := e.Guard
+		if axioms != nil {
+			g = axioms(g)
+		}
+		ok, why := Entails(g, e.Term, e.Bound, e.Strict)
 		if !ok && failMsg == "" {
 			op := "<="
 			if e.Strict {
